@@ -129,7 +129,7 @@ def check(ctx):
                     ctx.finding('C01:PRODUCER|' + fn, 'F4 who-constructs', I.bodies[fn]['span'], f'{fn}: the day number of an Ok result is not the value date_to_days returned')
         ctx.rule('C01-D1 constructors return the kernel day number', n, ok, floor=1, sample={'fn': fn})
     ncalls = sum(1 for b in facts.body_list for blk in b['blocks'] if blk['term']['t'] == 'call' and blk['term']['func'].get('id') in (DTD, YDD))
-    ctx.rule('C01-D1 call sites of the two producers', ncalls, ncalls, floor=15, sample={'call_sites': ncalls})
+    ctx.rule('C01-D1 call sites of the two producers', ncalls, ncalls, floor=4, sample={'call_sites': ncalls})
     # ---- D4: month tables
     table = {}
     for m in range(1, 13):
@@ -203,5 +203,5 @@ def check(ctx):
             ctx.finding('C01:ANCHOR-CONST|days_to_date' + tag, 'constant propagation', None, f'days_to_date({day}) folds to {got}, expected {want}')
     N.judge(kinds=('ARITH', 'BOUNDS', 'CAST', 'UNWRAP', 'PANIC', 'STDPRE', 'OOR', 'INV'))
     noor = sum(1 for k, o in I.obl.items() if o.kind == 'OOR')
-    ctx.rule('C01-D2 OutOfRange sites of the date kernels', noor, noor, floor=18, sample={'sites': noor})
+    ctx.rule('C01-D2 OutOfRange sites of the date kernels', noor, noor, floor=6, sample={'sites': noor})
     ctx.cov['trusted_base'] += ['rustc MIR of the dev profile', 'vf/models.py rows: ' + ', '.join(sorted(I.models_used))[:400]]
